@@ -147,7 +147,7 @@ def run(rep, tier):
     if sp.returncode != 0:
         raise vlib.ToolError("c17seeds failed")
     signed = json.loads(sp.stdout)
-    pure, probes, edits = c17_inputs.generate(vlib.seed(), 260 if thorough else 70, thorough, signed)
+    pure, probes, edits = c17_inputs.generate(vlib.seed(), 700 if thorough else 70, thorough, signed)
     # de-duplicate
     seen = set()
     uniq = []
